@@ -38,6 +38,15 @@ def mk_rich_processor(ex, u):
     pix = st.alloc(HObj(u.cls("pyxel/data_structure/pixel.py::Pixel"), {"_array": arr("pixel_content"), "_shape": VTuple([VInt(10), VInt(12)]), "_numbytes": VInt(0)}))
     pers = st.alloc(HObj("builtins.object", {"_trapped_charge_array": arr("trapped")})) if False else st.alloc(HDict([(VStr("trapped_charge"), arr("trapped"))]))
     det.fields.update({"_pixel": pix, "_memory": pers})
+    # mutable argument VALUES (a list, a nested dictionary): a copy that shares them lets one run's model or a
+    # nested parameter key write into another run's (or the caller's) configuration
+    for i, m in enumerate(ex.scn["models"]):
+        args_obj = st.cell(m).fields["_arguments"]
+        d = st.cell(st.cell(args_obj).fields["_arguments"])
+        k0, k1 = d.items[0][0], d.items[1][0]
+        mutable = (st.alloc(HList([VInt(z3.Int(f"m{i}_l0")), VInt(z3.Int(f"m{i}_l1"))])) if i == 0 else
+                   st.alloc(HDict([(VStr("offset"), VFloat(z3.Real(f"m{i}_offset")))])))
+        d.items = [(k0, d.items[0][1]), (k1, mutable)]
     return proc
 
 
